@@ -666,9 +666,10 @@ class GraphicsTerminal:
     ):
         if columns is None or lines is None:
             columns, lines = self.get_size()
+        # The cursor stops at the edges of the screen, on all four sides.
         self.tracked_cursor_position = (
-            min(x, columns - 1),
-            min(y, lines - 1),
+            max(0, min(x, columns - 1)),
+            max(0, min(y, lines - 1)),
         )
 
     def move_cursor(
